@@ -641,6 +641,44 @@ func (e *e4Engine) assume(s *pstate, cond ssa.Value, truth bool) bool {
 		case token.LSS, token.LEQ, token.GTR, token.GEQ:
 			v, op, k, ok := intCmp(t)
 			if ok {
+				// strings.IndexByte(<constant>, b) < 0 / >= 0: b is (not) one of the bytes of the constant
+				if set, bv, isIdx := indexByteOf(v); isIdx {
+					if !truth {
+						op = negOp(op)
+					}
+					member, known := false, false
+					switch {
+					case (op == token.LSS && k == 0) || (op == token.LEQ && k == -1):
+						member, known = false, true
+					case (op == token.GEQ && k == 0) || (op == token.GTR && k == -1):
+						member, known = true, true
+					}
+					if known && (s.symVals[bv] || (parserField(bv) == "onDeck" && s.deckSym)) {
+						inSet := func(c int64) bool { return c >= 0 && c < 256 && strings.IndexByte(set, byte(c)) >= 0 }
+						if member {
+							if s.d0eq >= 0 && !inSet(int64(s.d0eq)) {
+								return false
+							}
+							all := true
+							for i := 0; i < len(set); i++ {
+								if !s.d0ne[int64(set[i])] {
+									all = false
+								}
+							}
+							if all {
+								return false
+							}
+						} else {
+							if s.d0eq >= 0 && inSet(int64(s.d0eq)) {
+								return false
+							}
+							for i := 0; i < len(set); i++ {
+								s.d0ne[int64(set[i])] = true
+							}
+						}
+					}
+					return true
+				}
 				if _, isU := unsignedOrLen(v); isU {
 					if !truth {
 						op = negOp(op)
@@ -1473,4 +1511,25 @@ func (e *e4Engine) prune(fn *ssa.Function, s *pstate, b *ssa.BasicBlock) {
 			delete(s.snap, v)
 		}
 	}
+}
+
+// indexByteOf: v is strings.IndexByte(K, b) or bytes.IndexByte([]byte(K), b) for a constant string K.
+func indexByteOf(v ssa.Value) (set string, b ssa.Value, ok bool) {
+	call, isCall := v.(*ssa.Call)
+	if !isCall || len(call.Call.Args) != 2 {
+		return "", nil, false
+	}
+	f := calleeObj(call)
+	if f == nil || f.Pkg() == nil || f.Name() != "IndexByte" || (f.Pkg().Path() != "strings" && f.Pkg().Path() != "bytes") {
+		return "", nil, false
+	}
+	src := call.Call.Args[0]
+	if cv, isCv := src.(*ssa.Convert); isCv {
+		src = cv.X
+	}
+	k, isC := src.(*ssa.Const)
+	if !isC || k.Value == nil || k.Value.Kind() != constant.String {
+		return "", nil, false
+	}
+	return constant.StringVal(k.Value), call.Call.Args[1], true
 }
